@@ -21,7 +21,8 @@ CMP = ("x", "fun", "jac", "nfev", "njev", "nit", "message", "status", "success",
 
 def floors(tier):
     return {"pairs_compared": 300, "evaluation_points_compared": 5000, "callback_states_compared": 1500, "scaler_argument_checks": 300,
-            "target_runs": 100, "target_stops": 30, "packaged_scaler_pairs": 40, "__nontrivial__": 100}
+            "target_runs": 100, "target_stops": 30, "packaged_scaler_pairs": 20, "finite_difference_pairs": 40,
+            "pairs_with_identity_update_function": 40, "__nontrivial__": 100}
 
 
 def cases(tier, seed):
@@ -40,7 +41,11 @@ def cases(tier, seed):
             "cb": "never",
         }
         s = "packaged" if rng.random() < 0.2 else float(np.exp(rng.uniform(np.log(1e-3), np.log(1e3))))
-        yield {"problem": ps, "cfg": cfg, "s": s, "target_frac": float(rng.uniform(0.1, 0.9))}
+        if i % 4 == 3:
+            # finite-difference gradients: with s a power of two the scaling commutes with the differencing bit for bit
+            cfg["jac"] = gen.pick(rng, [None, "2-point", "3-point"])
+            s = float(2.0 ** int(rng.integers(-9, 10)))
+        yield {"problem": ps, "cfg": cfg, "s": s, "target_frac": float(rng.uniform(0.1, 0.9)), "ufd_identity": bool(i % 5 == 0)}
 
 
 def compare_runs(out, A, B, where, tags):
@@ -152,6 +157,11 @@ def run(spec):
     if not np.isfinite(f0):
         out.skipped = "nonfinite_start_value"
         return out
+    if spec.get("ufd_identity"):
+        cfg["ufd"] = "identity"  # an update function that returns its inputs must not change any of this
+        out.count("pairs_with_identity_update_function")
+    if cfg["jac"] != "callable":
+        out.count("finite_difference_pairs")
     A = probes.run_min(P, dict(cfg, scaler=scaler_cfg))
     A.cfg_mode = cfg["jac"]
     B = probes.run_min(P, dict(cfg, explicit_scale=s))
